@@ -132,4 +132,58 @@ theorem not_contains_vSlashPath (pfx : Str) (h : ∀ c ∈ pfx, c ≠ 36) (hl : 
       rw [contains_cons, this, Bool.or_false]
       simp [vSlashPath, vPath, List.isPrefixOf, hd']
 
+/-! ### `strconv.Atoi` against the plain decimal reading of the option -/
+
+theorem core_eq (ds : Str) :
+    (if ds.isEmpty || !ds.all isDigit then (0 : Int) else
+      let v := digitsVal ds
+      if 300 ≤ v && v ≤ 399 then (v : Int) else 0) =
+    (let r : Int × Bool := if ds.isEmpty || !ds.all isDigit then (0, true) else
+        let v : Int := digitsVal ds
+        (if v > maxInt then (maxInt, true) else (v, false))
+     if r.2 then 0 else if r.1 < 300 || r.1 > 399 then 0 else r.1) := by
+  by_cases h : (ds.isEmpty || !ds.all isDigit) = true
+  · simp [h]
+  · simp only [h, Bool.false_eq_true, if_false]
+    generalize digitsVal ds = n
+    simp only [maxInt]
+    by_cases h1 : (n : Int) > 9223372036854775807
+    · have : ¬ (300 ≤ n ∧ n ≤ 399) := by omega
+      simp [h1, this]
+    · simp only [h1, if_false, Bool.false_eq_true]
+      by_cases h2 : 300 ≤ n ∧ n ≤ 399
+      · have : ¬ ((n : Int) < 300 ∨ (n : Int) > 399) := by omega
+        simp [h2, this]
+      · have : ((n : Int) < 300 ∨ (n : Int) > 399) := by omega
+        simp [h2, this]
+
+theorem signOf_unsigned (c : UInt8) (r : Str) (c43 : c ≠ 43) (c45 : c ≠ 45) : signOf (c :: r) = (false, c :: r) := by
+  unfold signOf
+  split
+  · rename_i heq; simp only [List.cons.injEq] at heq; exact absurd heq.1 c43
+  · rename_i heq; simp only [List.cons.injEq] at heq; exact absurd heq.1 c45
+  · rfl
+
+theorem atoi_unsigned (c : UInt8) (r : Str) (c43 : c ≠ 43) (c45 : c ≠ 45) :
+    atoi (c :: r) = (if (c :: r).isEmpty || !(c :: r).all isDigit then (0, true) else
+        let v : Int := digitsVal (c :: r)
+        (if v > maxInt then (maxInt, true) else (v, false))) := by
+  simp [atoi, signOf_unsigned c r c43 c45]
+
+theorem atoi_plus (r : Str) :
+    atoi (43 :: r) = (if r.isEmpty || !r.all isDigit then (0, true) else
+        let v : Int := digitsVal r
+        (if v > maxInt then (maxInt, true) else (v, false))) := by
+  simp [atoi, signOf]
+
+theorem atoi_minus (r : Str) : (atoi (45 :: r)).2 = true ∨ (atoi (45 :: r)).1 ≤ 0 := by
+  simp only [atoi, signOf]
+  by_cases h : (r.isEmpty || !r.all isDigit) = true
+  · simp [h]
+  · simp only [h, Bool.false_eq_true, if_false, if_true]
+    generalize digitsVal r = n
+    split
+    · left; rfl
+    · right; simp only []; omega
+
 end Fabio.Lemmas.C13
